@@ -251,7 +251,9 @@ class ExposureMonitor(Monitor):
             if truth_mkt is not None:
                 pre_mkt, _ = self._market_worst(market, strategy, st, mk, order, pre, sel, others)
         two_sided = len(set([r["side"] for r in others if (r["frags"] or (not r["complete"] and r["rem"]))] + [side])) > 1
-        self.pending = dict(two_sided=two_sided, market_id=market.market_id, pre_sel=pre_sel, pre_mkt=pre_mkt, pre_own=pre_own, kind=kind, own=own, own_truth=own_truth, truth_sel=truth_sel, cons_sel=cons_sel, truth_mkt=truth_mkt, cons_mkt=cons_mkt, n=len(others), tol=self._tol(others), line=line, ew=bool(ew), side=side, t=t, sel=sel, strategy=strategy, price=new.get("price"), size=new.get("size"), old_price=getattr(ot, "price", None))
+        all_recs = self._recs(market, strategy)
+        tol_mkt = self._tol(all_recs)
+        self.pending = dict(tol_mkt=tol_mkt, two_sided=two_sided, market_id=market.market_id, pre_sel=pre_sel, pre_mkt=pre_mkt, pre_own=pre_own, kind=kind, own=own, own_truth=own_truth, truth_sel=truth_sel, cons_sel=cons_sel, truth_mkt=truth_mkt, cons_mkt=cons_mkt, n=len(others), tol=self._tol(others), line=line, ew=bool(ew), side=side, t=t, sel=sel, strategy=strategy, price=new.get("price"), size=new.get("size"), old_price=getattr(ot, "price", None))
 
     def _market_worst(self, market, strategy, st, mk, exclude, new, new_sel, new_sel_others):
         active = [int(s) for s, rs in st["r"].items() if rs["st"] == "ACTIVE"]
@@ -308,7 +310,7 @@ class ExposureMonitor(Monitor):
         accepted = bool(res)
         if accepted:
             pr["c01.accepted.%s" % kind] += 1
-            checks = (("order", lo, p["own_truth"] if kind == "REPLACE" or p["ew"] else p["own"], 1e-9), ("selection", ls, p["truth_sel"], tol), ("market", lm, p["truth_mkt"], tol))
+            checks = (("order", lo, p["own_truth"] if kind == "REPLACE" or p["ew"] else p["own"], 1e-9), ("selection", ls, p["truth_sel"], tol), ("market", lm, p["truth_mkt"], p["tol_mkt"]))
             pres = {"order": p["pre_own"], "selection": p["pre_sel"], "market": p["pre_mkt"]}
             for name, lim, v, t_ in checks:
                 if lim is None or v is None:
@@ -340,7 +342,7 @@ class ExposureMonitor(Monitor):
         if which is None:
             return
         pr["c01.refused_by.%s" % which] += 1
-        lim, v, t_ = {"order": (lo, p["own"], 1e-9), "selection": (ls, p["cons_sel"], tol), "market": (lm, p["cons_mkt"], tol)}[which]
+        lim, v, t_ = {"order": (lo, p["own"], 1e-9), "selection": (ls, p["cons_sel"], tol), "market": (lm, p["cons_mkt"], p["tol_mkt"])}[which]
         if lim is None:
             self.violate(self.P, "C01.decision", "refused-by-unset-%s-limit" % which, limit=lim)
             return
